@@ -369,7 +369,7 @@ func boundaryCases(thorough bool) []*Case {
 	add("lines-over", rep("\n", 1048576)+"pri status \"#x\"\n")
 	// Recursion depth proportional to the input size, far beyond 64 KiB: without depth
 	// limits in the parser these overflow Go's 1 GB stack (fatal error, not a panic).
-	huge := []int{3000000}
+	huge := []int{800000} // with quickMaxStack (worker.go)
 	if thorough {
 		huge = []int{300000, 1000000, 3000000, 6000000}
 	}
